@@ -184,6 +184,43 @@ func runC03Sources(res *Result, r *Rng) {
 			}
 		}
 	}
+	// files that cannot be loaded - missing under a root that another file establishes, not Go at all,
+	// a syntax error, a directory, unreadable - each named by TWO frames with arguments (a loader that
+	// remembers a failure must not hand it back as a success), and again in a second scan
+	{
+		bad := map[string]string{"syntax.go": "package main\n\nfunc broken(a int { panic(a) }\n", "notgo.go": "\x00\x01 this is not Go\n", "empty.go": ""}
+		for name, text := range bad {
+			os.WriteFile(filepath.Join(dir, "src", "app", name), []byte(text), 0o644)
+		}
+		os.Mkdir(filepath.Join(dir, "src", "app", "dir.go"), 0o755)
+		os.WriteFile(filepath.Join(dir, "src", "app", "noperm.go"), []byte("package main\n\nfunc np(a int) {\n\tpanic(a)\n}\n"), 0o000)
+		for _, name := range []string{"missing.go", "syntax.go", "notgo.go", "empty.go", "dir.go", "noperm.go"} {
+			pb := filepath.Join(dir, "src", "app", name)
+			dump := fmt.Sprintf("goroutine 1 [running]:\nmain.broken(0x5)\n\t%s:3 +0x1d\nmain.other(0x7, 0x8)\n\t%s:3 +0x2\nmain.f({0xc000012345, 0x3, 0x3}, {0x1, 0x2, 0x2}, {0x0, 0x0, 0x0}, {0x0, 0x0, 0x0})\n\t%s:%d +0x2\n\ngoroutine 2 [select]:\nmain.broken(0x6)\n\t%s:3 +0x1d\n\n", pb, pb, path, fns[0].line, pb)
+			for round := 0; round < 2; round++ {
+				var s *stack.Snapshot
+				if p := catch(func() { s, _, _ = stack.ScanSnapshot(strings.NewReader(dump), io.Discard, opts) }); p != nil {
+					res.Violation(Finding{Stream: "sources", What: fmt.Sprintf("ScanSnapshot with source analysis on panicked on a dump with several frames in a file that cannot be loaded (%s): %v", name, p), Op: map[string]interface{}{"dump": dump, "file": name}})
+					return
+				}
+				res.Count("source-unloadable")
+				if s == nil || len(s.Goroutines) != 2 {
+					res.Violation(Finding{Stream: "sources", What: fmt.Sprintf("a dump with frames in a file that cannot be loaded (%s) did not give its 2 goroutines", name), Op: map[string]interface{}{"dump": dump, "file": name}})
+					return
+				}
+				// the frame in the loadable file is still augmented
+				if c := s.Goroutines[0].Stack.Calls; len(c) != 3 || len(c[2].Args.Processed) == 0 {
+					res.Violation(Finding{Stream: "sources", What: fmt.Sprintf("a frame whose source is on disk was not augmented because another file of the dump (%s) cannot be loaded", name), Op: map[string]interface{}{"dump": dump, "file": name}})
+					return
+				}
+				if what, p := renderAll(s); p != nil {
+					res.Violation(Finding{Stream: "sources", What: fmt.Sprintf("%s panicked on a snapshot with frames in an unloadable file: %v", what, p), Op: map[string]interface{}{"dump": dump}})
+					return
+				}
+			}
+		}
+		os.Chmod(filepath.Join(dir, "src", "app", "noperm.go"), 0o600)
+	}
 	for _, f := range fns {
 		total := 0
 		for _, w := range f.shape {
